@@ -201,5 +201,8 @@ def check(ctx: Ctx, col: Collector, tier: str) -> None:
 
     # ------------------------------------------------------------------ MEMO-KEY
     memo_obligations(ctx, col, "C18.MEMO-KEY", None)
+    from .shared import share
+    share(ctx, col, "C16", {"C16.STATE-RESET"}, "no generator state survives from one declaration/module to the next")
+    share(ctx, col, "C04", {"C04.REEXPORT-GUARDS"}, "a re-export in one module must not change the publicity of same-named declarations of other modules")
     col.assume("everything relational is NOT decided: the name-keyed alias table, suffix matching in the re-export map and first-match scans over api.classes are interference "
                "channels by design; whether they change a module's bytes depends on the input")
